@@ -367,6 +367,111 @@ def r16_8(ctx, counts) -> RuleResult:
     return res
 
 
+def r16_10(ctx, counts) -> RuleResult:
+    """the comparator behind fn:sort is antisymmetric on its constant answers"""
+    model: Model = ctx.model
+    res = RuleResult(
+        'R16.10', 'COMPARATOR-ANTISYMMETRIC',
+        '"sort returns a stable, ordered permutation": the three-way comparator handed to '
+        'sorted() (compare.deep_compare and its nested helpers) must answer cmp(b, a) = '
+        '-cmp(a, b). Its pairwise variables (the targets of `for X, Y in zip_longest(..)`, the '
+        'parameter pairs e1/e2, obj1/obj2) are handled by mirrored branches. Every `return -1` / '
+        '`return 1` reached under branch facts about one variable of a pair is matched with '
+        'the return whose facts are the same with the two variables swapped (the positive '
+        'single-variable facts of one are, swapped, among those of the other); the two constants '
+        'must be opposite. A branch that answers -1 from both sides (NaN as second operand, a '
+        'boolean against a number, a double against a string) makes the result depend on the '
+        'input order: sort((1, NaN, -1)) was (-1, NaN, 1).')
+    mod = model.module('elementpath.compare')
+    top = mod.toplevel_function('deep_compare')
+    if top is None:
+        raise AnalysisError('compare.deep_compare vanished')
+    funcs = [top] + [g for g in mod.functions.values() if g.parent is top]
+    n_sites = n_pairs = 0
+    for f in funcs:
+        pairs: set[tuple[str, str]] = set()
+        params = f.params()
+        for a_ in params:
+            if a_.endswith('1') and a_[:-1] + '2' in params:
+                pairs.add((a_, a_[:-1] + '2'))
+        for lp in walk_local(f.node):
+            if isinstance(lp, ast.For) and isinstance(lp.target, ast.Tuple) \
+                    and len(lp.target.elts) == 2 \
+                    and all(isinstance(e, ast.Name) for e in lp.target.elts) \
+                    and isinstance(lp.iter, ast.Call) \
+                    and dotted(lp.iter.func).split('.')[-1] in ('zip', 'zip_longest'):
+                pairs.add((lp.target.elts[0].id, lp.target.elts[1].id))
+        if not pairs:
+            continue
+        cfg = CFG(f.node)
+        facts = branch_facts(cfg)
+
+        def single(fa: str, pr: tuple[str, str]):
+            try:
+                names = {y.id for y in ast.walk(ast.parse(fa[1:], mode='eval'))
+                         if isinstance(y, ast.Name)}
+            except SyntaxError:
+                return None
+            hit = names & set(pr)
+            return next(iter(hit)) if len(hit) == 1 else None
+
+        def swap(fa: str, pr: tuple[str, str]) -> str:
+            tree = ast.parse(fa[1:], mode='eval')
+            for y in ast.walk(tree):
+                if isinstance(y, ast.Name) and y.id in pr:
+                    y.id = pr[1] if y.id == pr[0] else pr[0]
+            return fa[0] + ast.unparse(tree.body)
+
+        sites = []
+        for nd in cfg.nodes:
+            if nd.kind != 'stmt' or not isinstance(nd.ast, ast.Return) or nd.ast.value is None:
+                continue
+            v = nd.ast.value
+            c = v.value if isinstance(v, ast.Constant) else (
+                -v.operand.value if isinstance(v, ast.UnaryOp) and isinstance(v.op, ast.USub)
+                and isinstance(v.operand, ast.Constant) else None)
+            if c not in (-1, 1):
+                continue
+            for pr in sorted(pairs):
+                pos = {fa for fa in facts[nd.id] if fa[0] == '+' and single(fa, pr)}
+                allf = {fa for fa in facts[nd.id] if single(fa, pr)}
+                if pos:
+                    sites.append((nd, c, pr, pos, allf))
+        n_sites += len(sites)
+        done = set()
+        for i, (nd, c, pr, pos, allf) in enumerate(sites):
+            for j, (nd2, c2, pr2, pos2, allf2) in enumerate(sites):
+                if j <= i or pr2 != pr or (i, j) in done:
+                    continue
+                sw = {swap(fa, pr) for fa in pos}
+                sw2 = {swap(fa, pr) for fa in pos2}
+                if not (sw <= pos2 or sw2 <= pos):
+                    continue
+                # the swapped facts of one must be consistent with the facts of the other
+                opp = {('-' if fa[0] == '+' else '+') + fa[1:] for fa in allf}
+                if opp & {swap(fa, pr) for fa in allf2}:
+                    continue
+                done.add((i, j))
+                n_pairs += 1
+                res.instances.append(f'{f.key}: L{nd.ast.lineno} return {c} / L{nd2.ast.lineno} '
+                                     f'return {c2} are mirror branches on {pr}: opposite={c == -c2}')
+                if c == -c2:
+                    res.ok()
+                else:
+                    res.fail(finding('R16.10', f, nd2.ast, f'mirror branches both return {c}',
+                                     f'`return {c2}` at L{nd2.ast.lineno} (under '
+                                     f'{sorted(pos2)[0][1:][:50]}) is the mirror of `return {c}` at '
+                                     f'L{nd.ast.lineno} (under {sorted(pos)[0][1:][:50]}) with '
+                                     f'{pr[0]} and {pr[1]} swapped, and answers the same: '
+                                     f'cmp(a, b) = cmp(b, a) = {c}, so the order fn:sort returns '
+                                     f'depends on the order of its input'))
+    counts['comparator_constant_returns'] = n_sites
+    counts['comparator_mirror_pairs'] = n_pairs
+    if n_pairs < 3:
+        raise AnalysisError(f'deep_compare: {n_pairs} mirror pairs of constant returns located')
+    return res
+
+
 def run(ctx) -> dict:
     counts: dict[str, int] = {}
     r2 = r05_1(ctx, counts, only=set(ITEM_CODE), rule='R05.1')
@@ -379,7 +484,7 @@ def run(ctx) -> dict:
     r9 = r05_10(ctx, counts)
     r9.title = 'ARGUMENT-KEYED-MEMO (R16.9 = R05.10: a function item is called once per item)'
     results = [r16_1(ctx, counts), r2, r16_3(ctx, counts), r52, r16_5(ctx, counts),
-               r16_6(ctx, counts), r16_8(ctx, counts), r9]
+               r16_6(ctx, counts), r16_8(ctx, counts), r9, r16_10(ctx, counts)]
     return {
         'results': results, 'counts': counts,
         'explanation':
